@@ -99,6 +99,62 @@ fn fixed_arg(name: &str) -> &'static str {
     }
 }
 
+/// A JSON value for a required field, by the name of its Rust type (`$…` are the generator's
+/// placeholders). Only a starting point: the seed is used if the real conversion accepts it.
+fn sample_for(ty: &str) -> Value {
+    let has = |s: &str| ty.contains(s);
+    if ty.starts_with("Vec<") || ty.starts_with("&[") {
+        json!([])
+    } else if ty.starts_with("BTreeMap<") || ty.starts_with("Raw<") || ty.starts_with("Box<Raw") || has("JsonObject") {
+        json!({})
+    } else if has("UserId") {
+        json!("$user")
+    } else if has("RoomAliasId") {
+        json!("$alias")
+    } else if has("RoomId") || has("RoomOrAliasId") {
+        json!("$room")
+    } else if has("EventId") {
+        json!("$event")
+    } else if has("ServerName") {
+        json!("$server")
+    } else if has("MxcUri") {
+        json!("mxc://example.org/abc")
+    } else if ty == "bool" {
+        json!(true)
+    } else if has("UInt") || has("MilliSecondsSinceUnixEpoch") || ty == "u64" || has("Duration") {
+        json!(1)
+    } else if ty == "String" || ty.starts_with("Owned") || has("Box<str>") || has("Token") || has("Secret") {
+        json!("$s")
+    } else {
+        json!({})
+    }
+}
+
+/// (query string, JSON body text) with a value for every required query / body field.
+fn auto_seed(st: &crate::srcdesc::SStruct) -> (String, String) {
+    use crate::srcdesc::SKind;
+    let mut q: Vec<String> = Vec::new();
+    let mut body = Map::new();
+    for f in &st.fields {
+        if f.optional || f.default {
+            continue;
+        }
+        let v = sample_for(&f.ty);
+        match f.kind {
+            SKind::Query => match v {
+                Value::String(s) => q.push(format!("{}={s}", f.name)),
+                Value::Bool(_) | Value::Number(_) => q.push(format!("{}={v}", f.name)),
+                _ => {}
+            },
+            SKind::Body => {
+                body.insert(f.name.clone(), v);
+            }
+            _ => {}
+        }
+    }
+    (q.join("&"), Value::Object(body).to_string())
+}
+
 fn mask(rng: &mut Rng) -> u32 {
     match rng.below(6) {
         0 => 0,
@@ -465,7 +521,7 @@ fn real_req_case(rng: &mut Rng, e: usize, query: &str, body: &str, extra: &mut O
         path_args: names.iter().map(|n| path_arg(rng, n)).collect(),
         query: fill_query(rng, query),
         // a request as it arrives carries a Content-Type; without one, endpoints with a raw body
-        // and an optional `Content-Type` header field run into finding F17 (kept in corpus/)
+        // and an optional `Content-Type` header field run into finding G17 (kept in corpus/)
         headers: vec![("content-type".to_owned(), "application/json".to_owned())],
         body: if body.is_empty() {
             vec![]
@@ -620,7 +676,7 @@ mod glue_gen {
     }
 
     /// A value of the struct: wire forms of contents the field types can hold. `clean`: none of
-    /// the contents that run into the recorded findings F17–F19, and header values the encoder
+    /// the contents that run into the recorded findings G17–G19, and header values the encoder
     /// accepts.
     pub fn value(rng: &mut Rng, d: &StructDesc, has_body: bool, clean: bool) -> GVal {
         let mut v = GVal::default();
@@ -639,7 +695,7 @@ mod glue_gen {
                     v.query_all.push(m.into_iter().collect());
                 }
                 (Kind::Header { name, optional }, tag) => {
-                    // F17: an absent optional header the generated code sets itself
+                    // G17: an absent optional header the generated code sets itself
                     let forced = name == "content-type" && has_body;
                     if *optional && !forced && rng.chance(1, 3) {
                         v.header.push(None);
@@ -1149,6 +1205,22 @@ pub fn gen(rng: &mut Rng, n: usize, tier: &str) -> Vec<Req> {
         }
         v.extend(real_resp_cases(rng, e, "{}"));
     }
+    // endpoints whose conversions refuse the empty seed (required fields): a seed made from the
+    // description — for every required query / body field a value chosen by the name of its type
+    for e in 0..syn0 {
+        let Ok(d) = &crate::real::descs()[e] else { continue };
+        let (q, b) = auto_seed(&d.req);
+        if !q.is_empty() || b != "{}" {
+            for _ in 0..(if thorough { 6 } else { 1 }) {
+                v.extend(real_req_cases(rng, e, &q, &b));
+            }
+        }
+        let (_, b) = auto_seed(&d.resp);
+        if b != "{}" {
+            v.extend(real_resp_cases(rng, e, &b));
+        }
+    }
+
     // every endpoint with a raw body, without any Content-Type header on the arriving message
     // (the seeds above always carry one): fixed lines, so that the recorded finding G17 — which
     // every one of them shows — is matched exactly by `findings/C16.json`
